@@ -163,9 +163,123 @@ def gen_near_one_case(rng):
                              "family": "gamma-near-one"})
 
 
+def gen_corridor_case(rng):
+    """undiscounted, path-shaped chain: n in {6,7,9,10} states (not powers of two), a corridor whose only forward
+    route to a closed class at its end has n-2..n-1 steps (back-steps, stays and exits to a goal do not shorten it),
+    state ids permuted.  Exercises reachability over long shortest paths (diameter up to n-1): transient/recurrent
+    classification, the -inf set and the +inf occupancies all depend on paths longer than 2^floor(log2 n)."""
+    n = rng.choice([6, 7, 7, 9, 10])
+    goal = rng.random() < .5
+    c = rng.randint(1, 2)
+    L = n - c - (1 if goal else 0)               # corridor positions 0..L-1, class L..L+c-1, goal last
+    perm = list(range(n))
+    rng.shuffle(perm)
+    cls = [perm[L + i] for i in range(c)]
+    g = perm[n - 1] if goal else None
+    trans, reward, actions = {}, {}, [None] * n
+    negclass = rng.random() < .75
+    for i in range(L):
+        s = perm[i]
+        actions[s] = [0, 1] if rng.random() < .7 else [0]
+        fwd = perm[i + 1]
+        p = rng.randint(1, 8)
+        row = [[fwd, str(F(p, 8))]]
+        if p < 8:
+            row.append([rng.choice([s, perm[max(i - 1, 0)], perm[0]]), str(F(8 - p, 8))])
+        if row[-1][0] == fwd:
+            row = [[fwd, "1"]]
+        trans["%d,0" % s] = row
+        for ns, _ in row:
+            if rng.random() < .7:
+                reward["%d,0,%d" % (s, ns)] = str(-rng.randint(1, 3))
+        if 1 in actions[s]:
+            tgt = g if (goal and rng.random() < .5) else rng.choice([s, perm[max(i - 1, 0)]])
+            trans["%d,1" % s] = [[tgt, "1"]]
+            if rng.random() < .7:
+                reward["%d,1,%d" % (s, tgt)] = str(-rng.randint(1, 3))
+    for i, s in enumerate(cls):
+        actions[s] = [0, 1] if rng.random() < .5 else [0]
+        for a in actions[s]:
+            ns = cls[(i + 1) % c] if a == 0 else rng.choice(cls)
+            trans["%d,%d" % (s, a)] = [[ns, "1"]]
+            if negclass:
+                reward["%d,%d,%d" % (s, a, ns)] = str(-rng.randint(1, 3))
+    absorbing = [False] * n
+    if goal:
+        absorbing[g] = True
+        actions[g] = [0]
+        trans["%d,0" % g] = [[g, "1"]]
+    init = [[perm[0], "1"]] if rng.random() < .6 else [[perm[0], "1/2"], [perm[rng.randrange(n)], "1/2"]]
+    if len(init) == 2 and init[0][0] == init[1][0]:
+        init = [[perm[0], "1"]]
+    m = {"n": n, "nA": 2, "actions": actions, "trans": trans, "reward": reward, "absorbing": absorbing,
+         "init": init, "gamma": "1"}
+    pol = gen_policy(rng, m, False)
+    # the forward action keeps positive probability almost everywhere (otherwise the corridor is cut: also a valid case)
+    for i in range(L):
+        s = perm[i]
+        if 1 in actions[s] and rng.random() < .85:
+            k = rng.randint(1, 7)
+            pol["rows"][str(s)] = [[0, str(F(k, 8))], [1, str(F(8 - k, 8))]]
+    case = {"mdp": m, "policy": pol, "explicit_lists": rng.random() < .3, "family": "corridor"}
+    return finish_case(rng, case)
+
+
+def gen_decisive_case(rng):
+    """a tiny action probability (2^-27 .. 2^-60, exact doubles) that decides the answer:
+    undiscounted: it is the ONLY way into a closed negative class (-inf / +inf occupancy vs finite);
+    discounted:   it carries a cost of 2^27 k, i.e. an expected contribution of k to the value."""
+    undisc = rng.random() < .6
+    while True:
+        m = gen_mdp.gen_mdp(rng, nmax=4, amax=3, gamma="1" if undisc else None, proper=undisc, uniform_actions=True,
+                            min_states=2, implicit_absorbing=False)
+        live = [s for s in range(m["n"]) if not m["absorbing"][s]]
+        if m["nA"] >= 2 and live:
+            break
+    s0 = rng.choice(live)
+    b = rng.randrange(m["nA"])
+    others = [a for a in range(m["nA"]) if a != b]
+    for k in [k for k in m["reward"] if k.startswith("%d,%d," % (s0, b))]:
+        del m["reward"][k]
+    if undisc:
+        e = rng.choice([30, 40, 50, 60])
+        c = rng.randint(1, 2)
+        cls = list(range(m["n"], m["n"] + c))
+        for i, s in enumerate(cls):
+            m["actions"].append(list(range(m["nA"])))
+            m["absorbing"].append(False)
+            for a in range(m["nA"]):
+                ns = cls[(i + 1) % c] if a == 0 else rng.choice(cls)
+                m["trans"]["%d,%d" % (s, a)] = [[ns, "1"]]
+                m["reward"]["%d,%d,%d" % (s, a, ns)] = str(-rng.randint(1, 3))
+        m["n"] += c
+        m["trans"]["%d,%d" % (s0, b)] = [[cls[0], "1"]]
+        if rng.random() < .6:
+            m["reward"]["%d,%d,%d" % (s0, b, cls[0])] = str(-rng.randint(1, 3))
+    else:
+        e = 27
+        kk = rng.randint(2, 4)
+        for ns, p in m["trans"]["%d,%d" % (s0, b)]:
+            m["reward"]["%d,%d,%d" % (s0, b, ns)] = str(-kk * 2 ** 27)
+    m["init"] = [[s0, "1"]] if rng.random() < .5 else [[s0, "1/2"], [rng.choice([x for x in range(m["n"]) if x != s0]), "1/2"]]
+    pol = gen_policy(rng, m, False)
+    eps = F(1, 2 ** e)
+    o = rng.choice(others)
+    pol["rows"][str(s0)] = [[b, str(eps)], [o, str(1 - eps)]]
+    if undisc:
+        # nobody else may walk into the class: b at s0 is the only entry (other states' transitions never lead there)
+        pass
+    case = {"mdp": m, "policy": pol, "explicit_lists": rng.random() < .3, "family": "decisive-tiny-probability"}
+    return finish_case(rng, case)
+
+
 def gen_case(rng, tier):
     if rng.random() < .05:
         return gen_watch_case(rng)
+    if rng.random() < .06:
+        return gen_corridor_case(rng)
+    if rng.random() < .06:
+        return gen_decisive_case(rng)
     if rng.random() < .03:
         return gen_error_case(rng)
     if rng.random() < float(os.environ.get("C02_NEAR_ONE_SHARE", ".06")):     # env override: stress runs only
@@ -214,7 +328,7 @@ def gen_case(rng, tier):
     if m["n"] >= 2 and rng.random() < .08:                # initial probabilities 2^-30 and 1 - 2^-30
         a, b = rng.sample(range(m["n"]), 2)
         m["init"] = [[a, str(F(1, 2 ** 30))], [b, str(1 - F(1, 2 ** 30))]]
-    tiny = (20 if undisc else 30) if rng.random() < .08 else None
+    tiny = (20 if undisc else rng.choice([30, 40, 50, 60])) if rng.random() < .08 else None
     case = {"mdp": m, "policy": gen_policy(rng, m, nondy, tiny), "explicit_lists": rng.random() < .3}
     if m["gamma"] in ("0", "1") and rng.random() < .5:
         case["gamma_as_int"] = True                       # discount_rate=1 / 0 passed as int
@@ -425,6 +539,25 @@ def oracle(P, R, av, absf, ini, g, pi):
     return {"ab": ab, "av": av, "V": V, "Q": Qm, "occ": occ, "iv": iv, "iv2": None, "rpi": rpi, "closed": closed, "neginf": neginf, "tau": tau}
 
 
+def longest_shortest_path(pi, P, ab):
+    """diameter of the policy's positive-probability graph (longest finite shortest path), absorbing rows cut"""
+    n = len(P)
+    adj = [[z for z in range(n) if not ab[s] and any(pi[s][a] > 0 and P[s][a][z] > 0 for a in range(len(P[s])))] for s in range(n)]
+    best = 0
+    for s in range(n):
+        dist, fr = {s: 0}, [s]
+        while fr:
+            nx = []
+            for x in fr:
+                for z in adj[x]:
+                    if z not in dist:
+                        dist[z] = dist[x] + 1
+                        nx.append(z)
+            fr = nx
+        best = max(best, max(dist.values()))
+    return best
+
+
 def compare(res, orc, g, rel=F(1, 10**5)):
     """first clause of the property the implementation's output fails against the exact oracle, or None"""
     n = len(orc["V"])
@@ -493,7 +626,7 @@ def run(ctx):
                           "error_path_cases", "relabelled_cases", "falsy_label_cases", "unsortable_label_cases", "gamma_zero_cases",
                           "gamma_as_int_cases", "large_reward_cases", "tiny_probability_cases", "tiny_negative_reward_cases",
                           "nan_to_zero_in_q_cases", "nan_to_zero_in_initial_value_cases", "all_absorbing_cases", "single_state_cases",
-                          "second_policy_on_used_mdp", "nondyadic", "neginf_cases", "mixed_finite_and_neginf",
+                          "second_policy_on_used_mdp", "corridor_cases", "long_path_cases", "decisive_tiny_probability_cases", "nondyadic", "neginf_cases", "mixed_finite_and_neginf",
                           "occinf_cases", "q_absorbing_nonzero_cases", "policy_on_larger_state_list", "permuted_lists",
                           "stochastic_policy_rows", "oracle_agree", "explicit_lists", "zero_prob_entries", "tau_certificates_accepted",
                           "gamma_near_one_cases", "rounding_watch_cases", "multi_step_cases", "reused_policy_evaluations",
@@ -543,6 +676,9 @@ def run(ctx):
             if k == 0:
                 cnt["undiscounted" if und else "discounted"] += 1
                 cnt["gamma_near_one_cases"] += int(case.get("family") == "gamma-near-one")
+                cnt["corridor_cases"] += int(case.get("family") == "corridor")
+                cnt["decisive_tiny_probability_cases"] += int(case.get("family") == "decisive-tiny-probability")
+                cnt["long_path_cases"] += int(longest_shortest_path(pi, P, absorbing_vec(P, R, av, absf)) >= 5)
                 cnt["rounding_watch_cases"] += int(case.get("family") == "rounding-watch")
                 cnt["nondyadic"] += int(case["policy"]["nondyadic"])
                 cnt["explicit_lists"] += int(case["explicit_lists"])
@@ -633,7 +769,7 @@ def run(ctx):
     ctx.coverage.update({
         "evaluations": nchk,
         "distinct_nontrivial": len(distinct),
-        "rule": "MDPs from harness/gen_mdp.py (1..%d states, 1..3 actions, state-dependent action sets, k/8 probabilities, zero entries, explicit/implicit absorbing states with ignored self-loop rewards, multi-state initial distributions; 55%% discounted gamma in {1/2,3/4,7/8,9/10,19/20} plus a family with gamma in {1-2^-20, 1-10^-6, 1-10^-8} and a closed non-absorbing rewarding class (values ~1e6..1e8), 45%% undiscounted with rewards <= 0, proper and improper, zero-reward regions) x random stochastic policies (deterministic rows, rows on the grid k/8 over subsets of the available actions, explicit zero entries, a share on denominators 3,5,6,7,10), given as TabularPolicy over permuted / larger state lists and permuted action lists or as FunctionalPolicy -> to_tabular; 35%% of the cases are multi-step: the same policy object is evaluated again on 1-2 MDPs with the same dynamics and re-ordered state/action lists and/or again on the first MDP, every evaluation judged separately; distinct = structural hash of (MDP, policy); non-trivial = at least one non-absorbing state" % (5 if tier == "quick" else 7),
+        "rule": "MDPs from harness/gen_mdp.py (1..%d states, 1..3 actions, state-dependent action sets, k/8 probabilities, zero entries, explicit/implicit absorbing states with ignored self-loop rewards, multi-state initial distributions; 55%% discounted gamma in {1/2,3/4,7/8,9/10,19/20} plus a family with gamma in {1-2^-20, 1-10^-6, 1-10^-8} and a closed non-absorbing rewarding class (values ~1e6..1e8), 45%% undiscounted with rewards <= 0, proper and improper, zero-reward regions; plus path-shaped undiscounted chains of 6..10 states whose only route to a closed class has n-2..n-1 steps, and cases where an action probability of 2^-27..2^-60 decides the answer) x random stochastic policies (deterministic rows, rows on the grid k/8 over subsets of the available actions, explicit zero entries, a share on denominators 3,5,6,7,10), given as TabularPolicy over permuted / larger state lists and permuted action lists or as FunctionalPolicy -> to_tabular; 35%% of the cases are multi-step: the same policy object is evaluated again on 1-2 MDPs with the same dynamics and re-ordered state/action lists and/or again on the first MDP, every evaluation judged separately; distinct = structural hash of (MDP, policy); non-trivial = at least one non-absorbing state" % (5 if tier == "quick" else 7),
         "samples": [{"case": cases[0], "impl": impl[0]}] if cases else [],
         "cases": len(cases),
         **cnt,
